@@ -2,6 +2,7 @@ import LassoProofs.C02
 import LassoProofs.Lemmas.Grow
 import LassoProofs.Lemmas.Ctor
 import LassoModel.Construct
+import LassoProofs.Lemmas.Config
 /-
   C08 — the memory limit is a hard cap and memory accounting is exact (sequential use).
 
@@ -193,5 +194,12 @@ theorem constructed_threaded_is_initial_state (env : Env) (N : Nat) (c : Source.
 example : Rodeo.construct 255 .withCapacity .forBytes 0 10 .default 0 = some (Rodeo.new 255 10 18446744073709551615) ∧
     Rodeo.construct 255 .withMemoryLimits .minimal 0 1 .forMemoryUsage 77 = some (Rodeo.new 255 4096 77) := by
   constructor <;> rfl
+
+/-- The code this file's theorems are about is the same under every feature configuration: the regenerated
+census of conditional compilation contains import blocks, whole serde impls, optional-dependency impls and
+module declarations only, and no gate inside any function body (`Lemmas/Config.lean`). -/
+theorem same_code_under_every_feature_configuration :
+    (Extracted.cfgGates.all fun g => g.kind != .other) = true ∧ Extracted.bodyGates.isEmpty = true :=
+  Lasso.one_code_base_for_all_configurations
 
 end Lasso.C08
